@@ -1,0 +1,39 @@
+//! Verification hook (feature `verif`): exposes the explorer's path-parameter
+//! parsers, which are private to `subcommand::server`, to the external check
+//! harness.  Purely additive: the parsers' source file is compiled a second
+//! time, unchanged, as a child of this module; nothing in ord uses this module.
+
+use super::*;
+
+#[path = "subcommand/server/query.rs"]
+#[allow(dead_code)]
+mod query;
+
+/// `/block/<query>`: `height:<n>` or `hash:<hex>`.
+pub fn query_block(s: &str) -> Result<String, String> {
+  match s.parse::<query::Block>() {
+    Ok(query::Block::Height(height)) => Ok(format!("height:{height}")),
+    Ok(query::Block::Hash(hash)) => Ok(format!("hash:{hash}")),
+    Err(err) => Err(err.to_string()),
+  }
+}
+
+/// `/inscription/<query>`: `id:<id>`, `number:<n>` or `sat:<n>`.
+pub fn query_inscription(s: &str) -> Result<String, String> {
+  match s.parse::<query::Inscription>() {
+    Ok(query::Inscription::Id(id)) => Ok(format!("id:{id}")),
+    Ok(query::Inscription::Number(number)) => Ok(format!("number:{number}")),
+    Ok(query::Inscription::Sat(sat)) => Ok(format!("sat:{}", sat.n())),
+    Err(err) => Err(err.to_string()),
+  }
+}
+
+/// `/rune/<query>`: `spaced:<rune value>:<spacers>`, `id:<block>:<tx>` or `number:<n>`.
+pub fn query_rune(s: &str) -> Result<String, String> {
+  match s.parse::<query::Rune>() {
+    Ok(query::Rune::Spaced(spaced)) => Ok(format!("spaced:{}:{}", spaced.rune.0, spaced.spacers)),
+    Ok(query::Rune::Id(id)) => Ok(format!("id:{}:{}", id.block, id.tx)),
+    Ok(query::Rune::Number(number)) => Ok(format!("number:{number}")),
+    Err(err) => Err(err.to_string()),
+  }
+}
